@@ -348,7 +348,17 @@ func runBatch(bin, prop, tier string, seed uint64, faults bool, runs int, budget
 				cmd.Stderr = io.Discard
 				cmd.Stdout = io.Discard
 				done := make(chan error, 1)
-				if err := cmd.Start(); err != nil {
+				err := cmd.Start()
+				for try := 0; err != nil && try < 3; try++ {
+					// transient (ETXTBSY right after the build, fork pressure)
+					time.Sleep(time.Second)
+					cmd = exec.Command(bin, args...)
+					cmd.Env = append(os.Environ(), "GOMAXPROCS=2", "TMPDIR="+scratch)
+					cmd.Stderr = io.Discard
+					cmd.Stdout = io.Discard
+					err = cmd.Start()
+				}
+				if err != nil {
 					mu.Lock()
 					b.errors = append(b.errors, err.Error())
 					mu.Unlock()
